@@ -7,6 +7,14 @@ PY = '/venv/bin/python -B -m vf.run'
 
 # id -> (engine, category, technique, level text, level_note, design_ref)
 CHECKS = {
+ 'C22': ('TX(line points)', 'model_checking',
+         'stateless search over thread schedules of the real code under a baton scheduler with line-level scheduling points in the shared-cache functions; iterative preemption bounding',
+         'Two (thorough: also three) real OS threads; scheduling points are sys.settrace line events in Query._get_translator, decompile, create_extractors, string2ast, adapt_sql, parse_raw_sql, the cache get/store lines of Query.__init__/_order_by/_process_lambda/_apply_kwargs/_construct_sql_and_arguments/delete, driver calls and the provider locks. 24 two-thread scenarios (thorough + 5 three-thread) built to share cache keys (slice bounds and getattr names invalidating a cached translator, same query strings, raw SQL with $params, hybrid methods, kwargs/order_by, aggregates, limit/offset, bulk delete, collection queries, vartypes), complete up to preemption bound 2 for the stale-translator scenarios and 1 otherwise (thorough 3/2): each thread gets the results and errors it gets running alone. Plus a sequential 15-case matrix: every use of an object of another thread\'s live session must raise.',
+         'Not explored: races inside one source line, inside loop bodies over thread-local data, inside functions not listed; schedules beyond the bound. CPython 3.12 with the GIL. The free-running smoke pass decides nothing.', 'DESIGN.md section 3 C22'),
+ 'C36': ('PX', 'model_checking',
+         'exhaustive enumeration of fork histories executed as real process trees with tagged driver-call logs',
+         '4 pools (real SQLitePool; PGPool, base Pool and OraPool on recording fakes) x 6 fork points (before bind, idle connection after bind, idle after a session, another thread in an open read session, another thread in an open write transaction that then commits or rolls back, after disconnect) x forking thread x session order x first child sessions x fork depth 1-2: no driver call in a child on a connection or session pool created by another process; the parent keeps working; every read sees exactly the rows committed before it by any process; the child\'s first write session does not block (structural detection under SIGALRM).',
+         'pg/base/oracle pools run on fakes over a sqlite file (model-based; shared-socket effects on a real server are not observable). A fork from inside an open session of the forking thread and a fork during another thread\'s running SELECT are excluded.', 'DESIGN.md section 3 C36'),
  'C02': ('QX+DM', 'exploration',
          'bounded-exhaustive enumeration of the C01 query space translated by the real SQLite/PostgreSQL/MySQL code; dialect SQL executed on a SQLite substrate under documented function models',
          'All 3,891 depth-1 QX expressions (+ depth-0 operands) in every C01 quick position, 40 join/group/inheritance forms, 24 LIMIT/OFFSET/page/first forms, 18 count()/exists() forms and 7 COUNT(DISTINCT row) forms (thorough: + 102,996 depth-2 expressions of the decided fragment) through five real provider classes: SQLite (real engine), PostgreSQL and MySQL (SQL text executed on the DM substrate, results returned through Pony\'s own fetch pipeline), Oracle and CockroachDB (render and bind only). Judged against the Python reference evaluator; only what differs between dialects, or fails on a non-SQLite dialect while SQLite agrees with Python, is reported under C02.',
